@@ -444,7 +444,18 @@ class Runner:
                     # that only the event itself keeps alive
                     tgt = Entity(model) if self.prog.get("temp_targets") and child % 4 == 1 \
                         else model
-                    if kind == "now":
+                    if self.prog.get("kwcalls"):
+                        # the documented parameter names, passed by keyword
+                        if kind == "now":
+                            ev = sim.schedule_event_now(target=tgt, method="h", priority=a[2],
+                                                        eid=a[1])
+                        elif kind == "rel":
+                            ev = sim.schedule_event_rel(delay=self.tv(a[1]), target=tgt,
+                                                        method="h", priority=a[3], eid=a[2])
+                        else:
+                            ev = sim.schedule_event_abs(time=self.tv(a[1]), target=tgt,
+                                                        method="h", priority=a[3], eid=a[2])
+                    elif kind == "now":
                         ev = sim.schedule_event_now(tgt, "h", a[2], eid=a[1])
                     elif kind == "rel":
                         ev = sim.schedule_event_rel(self.tv(a[1]), tgt, "h", a[3], eid=a[2])
@@ -698,6 +709,10 @@ class Runner:
             sim.step()
         elif name == "stop":
             sim.stop()
+        elif name == "run_up_to" and self.prog.get("kwcalls"):
+            sim.run_up_to(stop_time=self.tv(cmd[1]))
+        elif name == "run_up_to_incl" and self.prog.get("kwcalls"):
+            sim.run_up_to_including(stop_time=self.tv(cmd[1]))
         elif name == "run_up_to":
             sim.run_up_to(self.tv(cmd[1]))
         elif name == "run_up_to_incl":
@@ -708,7 +723,10 @@ class Runner:
             sim.cleanup()
         elif name == "initialize":
             rep = self.make_replication(cmd[1] if len(cmd) > 1 else None)
-            sim.initialize(self.model, rep)
+            if self.prog.get("kwcalls"):
+                sim.initialize(model=self.model, replication=rep)
+            else:
+                sim.initialize(self.model, rep)
             self.tc_done = set()            # (only an initialize that was admitted)
             self.active_model = self.model
             self.subscribe()
@@ -734,6 +752,8 @@ class Runner:
 
     def subscribe(self):
         ones = self.case.get("oneshot_listeners") or ()
+        if self.case.get("no_listeners"):
+            return                  # a plain script: nobody listens to the simulator at all
         late = self.case.get("late_tc")
         for name, et in SIM_EVENT_TYPES:
             if late and name == "TIME_CHANGED":
